@@ -1,8 +1,11 @@
 #!/bin/bash
-# usage: try_seed.sh <patch.diff> <PROP> [tier]  — applies the patch to /repo, runs the check, reverts.
-P=$1; PROP=$2; TIER=${3:-quick}
-cd /repo && git apply "$P" || { echo "PATCH DOES NOT APPLY to /repo"; exit 9; }
-cd /verif && bin/check $PROP $TIER 2>&1 | grep -E "VIOLATION|KNOWN|TROUBLE|^  C|property=" | head -12
+# usage: try_seed.sh <patch.diff> <PROP> [tier]
+# Applies the patch to a scratch copy of /repo's working tree (never to /repo), runs the check against the copy, removes it.
+P=$(readlink -f "$1"); PROP=$2; TIER=${3:-quick}
+W=$(mktemp -d /var/tmp/verifseed.XXXXXX)
+rsync -a --exclude .git /repo/ "$W/" || exit 9
+(cd "$W" && patch -p1 -s --no-backup-if-mismatch < "$P") || { echo "PATCH DOES NOT APPLY"; rm -rf "$W"; exit 9; }
+cd /verif && VERIF_REPO="$W" VERIF_NO_EVIDENCE=1 VERIF_REPLAY_DIR="$W.replays" bin/check $PROP $TIER 2>&1 | grep -E "VIOLATION|KNOWN|TROUBLE|^  C|property=" | head -12
 rc=${PIPESTATUS[0]}
-git -C /repo checkout -q -- . && git -C /repo clean -fdq
+rm -rf "$W" "$W.replays"
 echo "check_exit=$rc"
